@@ -32,6 +32,9 @@ MACRO_OWNERS = {"FASTOR_USE_HADD": "*", "FASTOR_MATMUL_OUTER_BLOCK_SIZE": ("c01"
                 "FASTOR_USE_VECTORISED_EXPR_ASSIGN": ("c05", "c18", "c19", "c20", "c04"), "CONTRACT_OPT": ("c03", "c14", "c15"), "FASTOR_ZERO_INITIALISE": "*",
                 "FASTOR_DISPATCH_DIV_TO_MUL_EXPR": ("c16", "c20", "c05"), "FASTOR_DISABLE_SPECIALISED_CTR": ("c04", "c05", "c18", "c02"),
                 "FASTOR_ENABLE_RUNTIME_CHECKS": "*", "FASTOR_COPY_EXPR": ("c02", "c09", "c16", "c04")}
+# instances (regex over the case id) a macro can influence within an owner
+MACRO_CASES = {"FASTOR_TRANS_OUTER_BLOCK_SIZE": r"^(transpose|trans|ctrans)", "FASTOR_TRANS_INNER_BLOCK_SIZE": r"^(transpose|trans|ctrans)",
+               "CONTRACT_OPT": r"^(permute|permutation|roundtrip|es)"}
 _excluded = {"n": 0}
 
 
@@ -75,7 +78,10 @@ def configs(tier, seed):
         macro_isas = None
     mac = []
     for k, m in enumerate(MACROS):
-        for isa in ([macro_isas[k]] if macro_isas else ["sse2", "avx2", "avx512"]):
+        isas = [macro_isas[k]] if macro_isas else ["sse2", "avx2", "avx512"]
+        if m.startswith("FASTOR_TRANS_"):      # the blocked transpose (and its block-size macros) only exists on the AVX-and-wider path
+            isas = [r.choice(["avx2", "avx512", "avx"])] if macro_isas else ["avx", "avx2", "avx512"]
+        for isa in isas:
             mac.append(Config(isa, "c++17" if k % 2 else "c++14", "-O2", True, "g++", (m,)))
     return out, mac
 
@@ -92,12 +98,15 @@ def known_case_patterns():
     return pats
 
 
-def corpus(tier, seed, big=False):
+def corpus(tier, seed, big=False, only=None, owners=None):
     per_prop = 5 if tier == "quick" else 16
+    # owners that sit directly on ISA-specific branches (SIMD lane operations, expression atoms) get a wider, stratified sample
+    PER_OWNER = {"c08": (40, 120), "c02": (16, 60), "c14": (10, 30), "c01": (10, 30), "c16": (10, 30)}
     pats = known_case_patterns()
     groups = []      # (owner, headers, prelude, mode, extra flags, [cases], unit params)
     _excluded["n"] = 0
     for name in OTHERS:
+        if owners and name not in owners: continue
         try:
             mod = importlib.import_module("gen." + name)
             theirs = mod.plan("quick", seed, random.Random("%s/c06corpus/%s" % (seed, name)))
@@ -110,7 +119,9 @@ def corpus(tier, seed, big=False):
         c14 = [u for u in plain if u.config.std == "c++14"]
         first = (c14 or plain or theirs)[0].config.name
         pool = [u for u in theirs if u.config.name == first and not u.config.macros]
-        r = random.Random("%s/c06pick/%s/%s" % (seed, name, big))
+        if only:
+            pool = [u for u in pool if any(re.search(only, c.id) for c in u.cases)]
+        r = random.Random("%s/c06pick/%s/%s/%s" % (seed, name, big, only))
         r.shuffle(pool)
         if big:     # prefer the units holding the largest instances
             pool.sort(key=lambda u: -max(c.size for c in u.cases))
@@ -120,17 +131,27 @@ def corpus(tier, seed, big=False):
         # the thorough tier takes a second unit for variety
         got_units = 0
         for u in pool:
-            if got_units >= (1 if tier == "quick" else 2): break
-            cand = list(u.cases); r.shuffle(cand)
+            if got_units >= ((2 if name in PER_OWNER else 1) if tier == "quick" else 3): break
+            cand = [c for c in u.cases if not only or re.search(only, c.id)]; r.shuffle(cand)
+            want = PER_OWNER.get(name, (per_prop, per_prop))[0 if tier == "quick" else 1]
+            # stratify: round-robin over id "shapes" (digits removed) so that every operation class / type of the unit is represented
+            strata = {}
+            for c in cand: strata.setdefault(re.sub(r"\d+", "#", c.id), []).append(c)
+            keys = sorted(strata); r.shuffle(keys)
+            mixed = []
+            while any(strata[k] for k in keys):
+                for k in keys:
+                    if strata[k]: mixed.append(strata[k].pop())
+            cand = mixed
             if big:     # macro axes (block sizes, ...) only bite on instances large enough to reach the blocked kernels
                 cand.sort(key=lambda c: -c.size)
-                cand = cand[:max(per_prop, len(cand) // 3)]
+                cand = cand[:max(want, len(cand) // 3)]
                 r.shuffle(cand)
             take = []
             for c in cand:
                 if any(re.search(p, c.id) for p in pats): _excluded["n"] += 1; continue
                 take.append(c)
-                if len(take) >= per_prop: break
+                if len(take) >= want: break
             if not take: continue
             got_units += 1
             groups.append(dict(owner=name, headers=u.headers, prelude=u.prelude, mode=u.mode, extra=tuple(u.config.extra), cases=take,
@@ -153,6 +174,7 @@ def plan(tier, seed, rng):
     base, mac = configs(tier, seed)
     groups = corpus(tier, seed)
     big_groups = corpus(tier, seed, big=True)
+    _targeted = {}
     probe_case = Case("probe/smoke", 'VF_CASE("probe/smoke", c06::probe)', dict(kind="acceptance probe"), size=0)
     units = []
     for cfg in base + mac:
@@ -161,16 +183,24 @@ def plan(tier, seed, rng):
         units.append(pu)
         if cfg.macros and not probe_ok(cfg):
             continue          # Fastor.h itself is rejected: reported once through the probe unit, the corpus is skipped
-        for g in (big_groups if cfg.macros else groups):
+        use = big_groups if cfg.macros else groups
+        if cfg.macros and cfg.macros[0].split("=")[0] in MACRO_CASES:
+            key = cfg.macros[0].split("=")[0]
+            if key not in _targeted:
+                _targeted[key] = corpus(tier, seed, big=True, only=MACRO_CASES[key], owners=MACRO_OWNERS.get(key))
+            use = _targeted[key]
+        for g in use:
             if cfg.macros and cfg.macros[0] == "FASTOR_DISPATCH_DIV_TO_MUL_EXPR" and g["owner"] in ("c02", "c09"):
                 continue
+            cases = g["cases"]
             if cfg.macros:
                 owners = MACRO_OWNERS.get(cfg.macros[0].split("=")[0], "*")
                 if owners != "*" and g["owner"] not in owners:
                     continue  # the macro cannot reach this owner's code
+
             c2 = Config(cfg.isa, cfg.std, cfg.opt, cfg.asserts, cfg.compiler, cfg.macros, tuple(cfg.extra) + g["extra"])
             c2.name = cfg.name      # the owner's extra flags (e.g. -ffp-contract=off) are part of the corpus entry, not of the configuration
-            u = Unit("C06", c2, g["cases"], g["headers"], mode=g["mode"], max_success=g["max_success"], prelude=g["prelude"],
+            u = Unit("C06", c2, cases, g["headers"], mode=g["mode"], max_success=g["max_success"], prelude=g["prelude"],
                      enum_budget=g["enum_budget"], size_floor=g["size_floor"], poison=g["poison"])
             u.seed_key = "C06"
             units.append(u)
